@@ -8,7 +8,7 @@ mod vk_slice {
 
     const N: usize = 4;
 
-    // @harness name=slice_next_ptr props=C19,C02,C01,C05 kind=bounded bound="slice length <= 4; counter value over the full usize domain"
+    // @harness name=slice_next_ptr props=C19,C02,C01,C05,C06 kind=bounded bound="slice length <= 4; counter value over the full usize domain"
     #[kani::proof]
     #[kani::stub(crate::iter::atomic_counter::AtomicCounter::fetch_and_add, c_faa)]
     #[kani::stub(crate::iter::atomic_counter::AtomicCounter::fetch_and_increment, c_inc)]
@@ -27,10 +27,10 @@ mod vk_slice {
         kani::cover!(r.is_some(), "delivering");
         match r {
             Some(nx) => {
-                assert!(b < len && nx.idx == b, "[C01 C02 C05 idx] next delivers the reserved position");
+                assert!(b < len && nx.idx == b, "[C01 C02 C05 C06 idx] next delivers the reserved position");
                 assert!(std::ptr::eq(nx.value, &slice[b]), "[C19 C02 same-address] the delivered reference points at the original element");
             }
-            None => assert!(b >= len, "[C01 C05 none-iff] None only past the end"),
+            None => assert!(b >= len, "[C01 C05 C06 none-iff] None only past the end"),
         }
         assert!(slice.len() == len, "[C19 unmodified] the collection is left as it was");
     }
@@ -65,7 +65,7 @@ mod vk_slice {
                 if k < l { assert!(p == Some(&slice[b + k] as *const u8), "[C19 C02 C03 same-address] the k-th chunk element points at the original element b + k"); }
                 else { assert!(p.is_none(), "[C03 exact-len] the chunk yields exactly the announced number of elements"); }
             }
-            None => assert!(b == en, "[C01 C03 C05 none-iff] None only when nothing is left"),
+            None => assert!(b == en, "[C01 C03 C05 C06 none-iff] None only when nothing is left"),
         }
     }
 
@@ -141,13 +141,18 @@ mod vk_slice {
         else if op == 1 { let _ = it.next_chunk(n).map(|c| c.begin_idx); chk_std_ops(0, n, len); }
         else if op == 2 { kani::assume(n > 0); { let mut b = it.buffered_iter(n); let _ = b.next().map(|c| c.begin_idx); }; chk_std_ops(0, n, len); }
         else if op == 3 { it.skip_to_end(); chk_std_ops(2, 0, len); }
-        else if op == 4 { let _ = it.try_get_len(); let _ = it.has_more(); chk_std_ops(1, 0, len); }
+        else if op == 4 {
+            let r = it.try_get_len(); chk_std_ops(1, 0, len);
+            assert!(n_loads() == 1 && r == Some(remaining(last_load_ret(), len)), "[C11 C05 C06 std-len] try_get_len is max(len - c, 0) for the counter value c it read, whatever that value is");
+            let h = it.has_more(); let k = remaining(last_load_ret(), len);
+            assert!(h == if k == 0 { crate::HasMore::No } else { crate::HasMore::Yes(k) }, "[C11 C05 C06 std-more] has_more is No iff nothing remains, else Yes(remaining)");
+        }
         else { let s = it.into_seq_iter(); chk_std_ops(1, 0, len); std::mem::forget(s); }
     }
 
     // the `for`-loop adaptors values() / ids_and_values() driven through Iterator methods other than next()
     // (nth, on which skip / step_by are built): still one source element per yielded item, with its own index
-    // @harness name=slice_wrappers_nth props=C02,C01,C05 kind=bounded bound="slice length <= 4; any counter value; nth(k) with k <= 3, then next() (real atomics, sequential)"
+    // @harness name=slice_wrappers_nth props=C02,C01,C05,C06 kind=bounded bound="slice length <= 4; any counter value; nth(k) with k <= 3, then next() (real atomics, sequential)"
     #[kani::proof]
     #[kani::unwind(7)]
     fn slice_wrappers_nth() {
@@ -169,7 +174,7 @@ mod vk_slice {
             kani::cover!(r.is_some() && k == 2, "nth(2) delivers");
             match r {
                 Some((i, v)) => { assert!(i == c + k && i < len, "[C02 C01 wrapper-nth-idx] ids_and_values().nth(k) reports the index of the element it yields"); assert!(std::ptr::eq(v, &slice[i]), "[C02 wrapper-nth-value] ... and yields the element found at that index"); }
-                None => assert!(c + k >= len, "[C01 C05 wrapper-nth-none] None only when the position is past the end"),
+                None => assert!(c + k >= len, "[C01 C05 C06 wrapper-nth-none] None only when the position is past the end"),
             }
             match w.next() { Some((i, v)) => { assert!(i < len && std::ptr::eq(v, &slice[i]), "[C02 wrapper-next-after-nth] the following item still carries its own index"); } None => {} }
         } else {
@@ -177,7 +182,7 @@ mod vk_slice {
             let r = w.nth(k);
             match r {
                 Some(v) => assert!(c + k < len && std::ptr::eq(v, &slice[c + k]), "[C02 C01 wrapper-nth-value] values().nth(k) yields the element at the (k+1)-th next position"),
-                None => assert!(c + k >= len, "[C01 C05 wrapper-nth-none] None only when the position is past the end"),
+                None => assert!(c + k >= len, "[C01 C05 C06 wrapper-nth-none] None only when the position is past the end"),
             }
         }
     }
